@@ -446,11 +446,16 @@ func (e *CheckingEnvironment) parseAndCheckProgramWithRecovery(
 
 	// If parsing or checking fails, attempt to recover
 
-	recoveredProgram, recoveredElaboration := e.recoverProgram(
+	recoveredProgram, recoveredElaboration, recoveryErr := e.recoverProgram(
 		code,
 		location,
 		checkedImports,
 	)
+
+	// If the host failed while recovering the program, report that failure
+	if recoveryErr != nil {
+		return nil, nil, recoveryErr
+	}
 
 	// If recovery failed, return the original error
 	if recoveredProgram == nil || recoveredElaboration == nil {
@@ -472,6 +477,7 @@ func (e *CheckingEnvironment) recoverProgram(
 ) (
 	program *ast.Program,
 	elaboration *sema.Elaboration,
+	recoveryErr error,
 ) {
 	// Parse
 
@@ -486,7 +492,7 @@ func (e *CheckingEnvironment) recoverProgram(
 		},
 	)
 	if err != nil {
-		return nil, nil
+		return nil, nil, nil
 	}
 
 	// Recover elaboration from the old program
@@ -495,25 +501,29 @@ func (e *CheckingEnvironment) recoverProgram(
 	errors.WrapPanic(func() {
 		newCode, err = e.runtimeInterface.RecoverProgram(program, location)
 	})
-	if err != nil || newCode == nil {
-		return nil, nil
+	if err != nil {
+		// A failure of the host is not a failed recovery
+		return nil, nil, interpreter.WrappedExternalError(err)
+	}
+	if newCode == nil {
+		return nil, nil, nil
 	}
 
 	// Parse and check the recovered program
 
 	program, err = parser.ParseProgram(e.memoryGauge, newCode, parser.Config{})
 	if err != nil {
-		return nil, nil
+		return nil, nil, nil
 	}
 
 	elaboration, err = e.check(location, program, checkedImports)
 	if err != nil || elaboration == nil {
-		return nil, nil
+		return nil, nil, nil
 	}
 
 	e.codesAndPrograms.setCode(location, newCode)
 
-	return program, elaboration
+	return program, elaboration, nil
 }
 
 func (e *CheckingEnvironment) temporarilyRecordCode(location common.AddressLocation, code []byte) {
